@@ -14,7 +14,7 @@ SPEC = {
         _g("consensus/crdt", "crdt"),
     ],
     "gen": ["Locksets"],
-    "force": ["Gen/Locksets.v", "Proofs/C18_Table.v", "Proofs/C18_Tie.v"],
+    "force": ["Gen/Locksets.v", "Proofs/C18_Table.v", "Proofs/C18_Tie.v", "Proofs/C18_WaitTable.v"],
     "diag": True,
     "shrink": False,
     "rule": "one case = one stress scenario run in a child process of the -race test binary for a fixed duration "
